@@ -408,8 +408,16 @@ Hopen(const char *path, int acc_mode, int16 ndds)
             HGOTO_ERROR(DFE_INTERNAL, FAIL);
     } /* end if */
     else {
-        HIread_version(fid); /* ignore return code in case the file doesn't have a version */
-    }                        /* end else */
+        /* a file need not have a version element; one that is there and
+           cannot be read is an I/O error like any other (with buffered
+           stdio it may be the failed write-out of earlier data) */
+        if (HIread_version(fid) == FAIL && Hexist(fid, DFTAG_VERSION, 1) == SUCCEED) {
+            Hclose(fid); /* undoes this open, whether or not the file was open before */
+            fid      = FAIL;
+            file_rec = NULL;
+            HGOTO_ERROR(DFE_READERROR, FAIL);
+        }
+    } /* end else */
 
     ret_value = fid;
 
